@@ -9,7 +9,7 @@
    appends comes from a fixed vocabulary of 19 names (or is empty), and html_block tokens exist
    only when options.html is on (C04_block_tags_from_vocabulary).  Only statements and [exact]. *)
 From MD Require Import Base.Py Base.Str Base.Opt Model.Token Model.Utils Model.Render Model.StateBlock Model.Block
-     Model.Inline Model.Pipeline Lemmas.EscapeLemmas Lemmas.RenderLemmas Lemmas.BlockKinds Lemmas.InlineKinds Lemmas.PipelineSafe.
+     Model.Inline Model.Pipeline Lemmas.EscapeLemmas Lemmas.RenderLemmas Lemmas.BlockKinds Lemmas.InlineKinds Lemmas.PipelineSafe Lemmas.InlineUrls Lemmas.PipelineUrls.
 
 (* for EVERY string: the escaped form contains no < > double-quote, and every & in it
    begins one of the four entities the escaper itself writes *)
@@ -96,6 +96,33 @@ Theorem C04_parse_tokens_from_vocabulary :
       parse cfg reformat casefold linktext src env = Ok (ts, env') -> Forall (ok_top all_tags) ts.
 Proof. exact parse_tokens_ok. Qed.
 Print Assumptions C04_parse_tokens_from_vocabulary.
+
+(* ... nor an attribute of its own: every attribute NAME of every token of parse(src), and of every child of an
+   inline token, is one of href, title, src, alt, start, style - for every source, configuration (html on or off)
+   and every env whose recorded destinations are validated (the empty env, and every env a parse returns:
+   C05_parse_urls_validated).  The renderer adds "class" (fence) and "alt" (image) itself. *)
+Theorem C04_attribute_names_from_vocabulary :
+  forall cfg reformat casefold linktext, chains_sub (p_block cfg) ->
+  forall src env ts env',
+    env_good reformat env ->
+    parse cfg reformat casefold linktext src env = Ok (ts, env') ->
+    Forall (fun t => Forall (fun kv => In (fst kv) attr_names) (tattrs t)
+                     /\ forall ch, tchildren t = Some ch -> str_eqb (ttype t) s_inline = true ->
+                                    Forall (fun c => Forall (fun kv => In (fst kv) attr_names) (tattrs c)) ch) ts.
+Proof. exact parse_attr_names. Qed.
+Print Assumptions C04_attribute_names_from_vocabulary.
+
+Theorem C04_inline_attribute_names_from_vocabulary :
+  forall cfg reformat casefold linktext, chains_sub (p_block cfg) ->
+  forall src env ts env',
+    env_good reformat env ->
+    parse_inline cfg reformat casefold linktext src env = Ok (ts, env') -> Forall (names_inv) ts.
+Proof. exact parse_inline_attr_names. Qed.
+Print Assumptions C04_inline_attribute_names_from_vocabulary.
+
+Example C04_attr_names_are : attr_names = [[104; 114; 101; 102]; [116; 105; 116; 108; 101]; [115; 114; 99]; [97; 108; 116]; [115; 116; 97; 114; 116]; [115; 116; 121; 108; 101]]
+                             /\ env_good (fun s => s) env0.
+Proof. split; [reflexivity | constructor]. Qed.
 
 (* inline half on its own: the inline parser only ever leaves vocabulary tokens; html_inline needs options.html *)
 Theorem C04_inline_tokens_from_vocabulary :
